@@ -76,13 +76,16 @@ type roSpec struct {
 
 // rsSpec describes one ReplicaSet.
 type rsSpec struct {
-	Name     string `json:"name"`
-	Owned    bool   `json:"ownedByDeployment"`
-	Replicas int32  `json:"replicas"`
-	Deleting bool   `json:"deleting"`
-	Hash     string `json:"hash"`
-	Image    string `json:"image"` // "" = same template as the old Deployment
-	Revision int    `json:"revision"`
+	Name           string `json:"name"`
+	Owned          bool   `json:"ownedByDeployment"`
+	Replicas       int32  `json:"replicas"`
+	StatusReplicas int32  `json:"statusReplicas"`
+	ReadyReplicas  int32  `json:"readyReplicas"`
+	AvailReplicas  int32  `json:"availableReplicas"`
+	Deleting       bool   `json:"deleting"`
+	Hash           string `json:"hash"`
+	Image          string `json:"image"` // "" = same template as the old Deployment
+	Revision       int    `json:"revision"`
 }
 
 type caseIn struct {
@@ -186,7 +189,8 @@ func genReplicas(rng *rand.Rand) interface{} {
 }
 
 // genWorkload builds the stored (old) object.
-func genWorkload(rng *rand.Rand, k kindInfo, markNames []string) obj {
+// focus: the stored object is in the middle of a release of the first Rollout (used to reach the in-progress rows often enough).
+func genWorkload(rng *rand.Rand, k kindInfo, markNames []string, focus bool) obj {
 	md := obj{"name": wlName, "namespace": wlNS, "uid": wlUID, "generation": float64(3), "resourceVersion": "1001", "creationTimestamp": "2023-05-01T00:00:00Z"}
 	// labels
 	var labels obj
@@ -234,10 +238,14 @@ func genWorkload(rng *rand.Rand, k kindInfo, markNames []string) obj {
 		setA(keyRolloutID, "v1")
 	}
 	inProg := false
-	if gen.Chance(rng, 33) {
+	if focus || gen.Chance(rng, 33) {
 		inProg = true
 		name := gen.Pick(rng, markNames...)
-		switch r := rng.Intn(100); {
+		r := rng.Intn(100)
+		if focus {
+			name, r = markNames[0], r*85/100
+		}
+		switch {
 		case r < 70:
 			setA(keyInProgress, fmt.Sprintf(`{"rolloutName":"%s"}`, name))
 		case r < 85:
@@ -251,10 +259,14 @@ func genWorkload(rng *rand.Rand, k kindInfo, markNames []string) obj {
 	if k.Kind == "Deployment" {
 		p := 12
 		if inProg {
-			p = 60
+			p = 70
 		}
 		if gen.Chance(rng, p) {
-			switch rng.Intn(5) {
+			styleCase := rng.Intn(5)
+			if inProg && gen.Chance(rng, 35) {
+				styleCase = 0
+			}
+			switch styleCase {
 			case 0, 1:
 				setA(keyDepStrategy, gen.Pick(rng,
 					`{"rollingStyle":"Partition","rollingUpdate":{"maxUnavailable":"25%","maxSurge":"25%"},"paused":false,"partition":1}`,
@@ -281,11 +293,28 @@ func genWorkload(rng *rand.Rand, k kindInfo, markNames []string) obj {
 	if r, ok := spec["replicas"].(float64); ok {
 		replicas = r
 	}
-	multi := gen.Chance(rng, 30)
-	upd := replicas
-	updRev := "echo-6d4b75cb6d"
-	if multi && replicas > 0 {
-		upd = replicas - 1
+	// status: every field varies on its own (the handlers must not be fooled by readiness / availability)
+	le := func(n float64) float64 { // a value in [0,n], most often n itself
+		if n <= 0 || gen.Chance(rng, 55) {
+			return n
+		}
+		return float64(rng.Intn(int(n) + 1))
+	}
+	stReplicas := replicas
+	switch r := rng.Intn(100); {
+	case r < 12:
+		stReplicas = replicas + 2 // scaling down
+	case r < 22 && replicas > 0:
+		stReplicas = replicas - 1 // scaling up
+	}
+	upd := stReplicas
+	if gen.Chance(rng, 32) {
+		upd = le(stReplicas)
+	}
+	updReady, ready := le(upd), le(stReplicas)
+	avail := le(ready)
+	curRev, updRev := "echo-6d4b75cb6d", "echo-6d4b75cb6d"
+	if (upd != stReplicas) != gen.Chance(rng, 10) { // mostly consistent with the pod counts, sometimes lagging
 		updRev = "echo-7f9c6b9d8f"
 	}
 	var status obj
@@ -309,7 +338,10 @@ func genWorkload(rng *rand.Rand, k kindInfo, markNames []string) obj {
 			spec["revisionHistoryLimit"] = float64(10)
 			spec["progressDeadlineSeconds"] = float64(600)
 		}
-		status = obj{"replicas": replicas, "updatedReplicas": upd, "readyReplicas": replicas, "availableReplicas": replicas, "observedGeneration": float64(3)}
+		status = obj{"replicas": stReplicas, "updatedReplicas": upd, "readyReplicas": ready, "availableReplicas": avail, "observedGeneration": float64(3)}
+		if stReplicas-avail > 0 {
+			status["unavailableReplicas"] = stReplicas - avail
+		}
 	case "CloneSet":
 		switch r := rng.Intn(100); {
 		case r < 10:
@@ -332,8 +364,12 @@ func genWorkload(rng *rand.Rand, k kindInfo, markNames []string) obj {
 			}
 			spec["updateStrategy"] = us
 		}
-		status = obj{"replicas": replicas, "updatedReplicas": upd, "readyReplicas": replicas, "availableReplicas": replicas, "updatedReadyReplicas": upd,
-			"observedGeneration": float64(3), "currentRevision": "echo-6d4b75cb6d", "updateRevision": updRev}
+		status = obj{"replicas": stReplicas, "updatedReplicas": upd, "readyReplicas": ready, "availableReplicas": avail, "updatedReadyReplicas": updReady,
+			"observedGeneration": float64(3), "currentRevision": curRev, "updateRevision": updRev}
+		if gen.Chance(rng, 50) {
+			status["expectedUpdatedReplicas"] = le(stReplicas)
+			status["updatedAvailableReplicas"] = le(updReady)
+		}
 	case "DaemonSet":
 		ru := func() obj {
 			o := obj{"rollingUpdateType": "Standard", "maxUnavailable": float64(1), "maxSurge": float64(0)}
@@ -362,10 +398,15 @@ func genWorkload(rng *rand.Rand, k kindInfo, markNames []string) obj {
 		}
 		d := []float64{0, 3, 3, 10, 10, 10}[rng.Intn(6)]
 		u := d
-		if multi && d > 0 {
-			u = d - 1
+		if gen.Chance(rng, 32) {
+			u = le(d)
 		}
-		status = obj{"desiredNumberScheduled": d, "currentNumberScheduled": d, "numberReady": d, "numberAvailable": d, "updatedNumberScheduled": u,
+		cur, dsReady := d, le(d)
+		if gen.Chance(rng, 15) {
+			cur = le(d)
+		}
+		dsAvail := le(dsReady)
+		status = obj{"desiredNumberScheduled": d, "currentNumberScheduled": cur, "numberReady": dsReady, "numberAvailable": dsAvail, "updatedNumberScheduled": u,
 			"numberMisscheduled": float64(0), "observedGeneration": float64(3), "daemonSetHash": "6d4b75cb6d"}
 	case "StatefulSet", "AdvStatefulSet":
 		spec["serviceName"] = "echo"
@@ -400,8 +441,8 @@ func genWorkload(rng *rand.Rand, k kindInfo, markNames []string) obj {
 			spec["podManagementPolicy"] = "OrderedReady"
 			spec["revisionHistoryLimit"] = float64(10)
 		}
-		status = obj{"replicas": replicas, "updatedReplicas": upd, "readyReplicas": replicas, "availableReplicas": replicas, "observedGeneration": float64(3),
-			"currentRevision": "echo-6d4b75cb6d", "updateRevision": updRev}
+		status = obj{"replicas": stReplicas, "updatedReplicas": upd, "readyReplicas": ready, "availableReplicas": avail, "currentReplicas": stReplicas - upd,
+			"observedGeneration": float64(3), "currentRevision": curRev, "updateRevision": updRev}
 	}
 	o := obj{"apiVersion": k.APIVersion, "kind": k.Kind, "metadata": md, "spec": spec}
 	if gen.Chance(rng, 92) {
@@ -640,7 +681,7 @@ func pickWeighted(rng *rand.Rand, w []int) int {
 	return len(w) - 1
 }
 
-func genRollouts(rng *rand.Rand, k kindInfo) []roSpec {
+func genRollouts(rng *rand.Rand, k kindInfo, focus bool) []roSpec {
 	var n int
 	switch r := rng.Intn(100); {
 	case r < 12:
@@ -651,6 +692,9 @@ func genRollouts(rng *rand.Rand, k kindInfo) []roSpec {
 		n = 2
 	default:
 		n = 3
+	}
+	if focus && n == 0 {
+		n = 1
 	}
 	names := []string{"ro-a", "ro-b", "ro-c"}
 	rng.Shuffle(len(names), func(i, j int) { names[i], names[j] = names[j], names[i] })
@@ -713,6 +757,16 @@ func genRollouts(rng *rand.Rand, k kindInfo) []roSpec {
 			}
 		}
 		r.TR = r.Strategy != "empty" && gen.Chance(rng, 45)
+		if focus && i == 0 { // an active Rollout that references the workload exactly
+			r.APIVersion, r.Kind, r.RefName, r.NS = k.APIVersion, k.Kind, wlName, wlNS
+			r.Deleting, r.Disabled = false, false
+			if r.Phase == "Disabled" || r.Phase == "Terminating" {
+				r.Phase = "Progressing"
+			}
+			if r.Strategy == "empty" {
+				r.Strategy = "partition"
+			}
+		}
 		out = append(out, r)
 	}
 	sort.Slice(out, func(i, j int) bool { return out[i].Name < out[j].Name })
@@ -766,6 +820,23 @@ func genRSs(rng *rand.Rand) []rsSpec {
 		if gen.Chance(rng, 18) {
 			s.Replicas = 0
 		}
+		s.StatusReplicas = s.Replicas
+		switch r := rng.Intn(100); {
+		case r < 15 && s.Replicas == 0:
+			s.StatusReplicas = 2 // scaled down, pods not gone yet
+		case r < 15:
+			s.StatusReplicas = int32(rng.Intn(int(s.Replicas))) // scaling up
+		}
+		if s.StatusReplicas > 0 {
+			s.ReadyReplicas = s.StatusReplicas
+			if gen.Chance(rng, 40) {
+				s.ReadyReplicas = int32(rng.Intn(int(s.StatusReplicas) + 1))
+			}
+			s.AvailReplicas = s.ReadyReplicas
+			if s.ReadyReplicas > 0 && gen.Chance(rng, 30) {
+				s.AvailReplicas = int32(rng.Intn(int(s.ReadyReplicas) + 1))
+			}
+		}
 		if i < n-1 {
 			s.Image = fmt.Sprintf("echo:v0.%d", i)
 		}
@@ -805,13 +876,14 @@ func (s rsSpec) build(oldTemplate obj) *apps.ReplicaSet {
 		tpl.Spec.Containers[0].Image = s.Image
 	}
 	rs.Spec.Template = tpl
-	rs.Status.Replicas = s.Replicas
+	rs.Status.Replicas, rs.Status.ReadyReplicas, rs.Status.AvailableReplicas = s.StatusReplicas, s.ReadyReplicas, s.AvailReplicas
 	return rs
 }
 
 func genCase(rng *rand.Rand, idx int) *caseIn {
 	in := &caseIn{K: kinds[idx%len(kinds)]}
-	in.Rollouts = genRollouts(rng, in.K)
+	focus := in.K.Kind == "Deployment" && gen.Chance(rng, 22)
+	in.Rollouts = genRollouts(rng, in.K, focus)
 	markNames := []string{"ro-a", "ro-b"}
 	for _, r := range in.Rollouts { // bias the in-progress mark towards a Rollout that references the workload
 		if r.RefName == wlName && r.Kind == in.K.Kind && r.NS == wlNS {
@@ -819,7 +891,14 @@ func genCase(rng *rand.Rand, idx int) *caseIn {
 			break
 		}
 	}
-	in.Old = genWorkload(rng, in.K, markNames)
+	if focus {
+		for _, r := range in.Rollouts {
+			if r.RefName == wlName && r.Kind == in.K.Kind && r.NS == wlNS && r.APIVersion == in.K.APIVersion && !r.Deleting && !r.Disabled && r.Phase != "Disabled" {
+				markNames = []string{r.Name}
+			}
+		}
+	}
+	in.Old = genWorkload(rng, in.K, markNames, focus)
 	in.New = cp(in.Old).(obj)
 	n := 1
 	switch r := rng.Intn(100); {
@@ -832,6 +911,9 @@ func genCase(rng *rand.Rand, idx int) *caseIn {
 	seen := map[string]bool{}
 	for tries := 0; len(in.Edits) < n && tries < 12; tries++ {
 		e := editNames[pickWeighted(rng, editWeights)]
+		if focus && len(in.Edits) == 0 && tries == 0 && gen.Chance(rng, 70) {
+			e = gen.Pick(rng, "image", "image", "env", "tmpl-label", "tmpl-anno", "rid-anno", "rid-anno")
+		}
 		if seen[e] || (e == "none" && len(in.Edits) > 0) {
 			continue
 		}
